@@ -138,6 +138,9 @@ type Engine struct {
 	initBusy map[*ssa.Package]bool
 	objSeq   int
 	epoch    int
+	// FreezeAll monitor: objects allocated before this epoch are read-only
+	freezeEpoch int
+	freezeLabel string
 	steps    int
 	seq      map[string]int
 	draws    []Draw
@@ -799,6 +802,7 @@ func (e *Engine) resetPath() {
 	e.initBusy = map[*ssa.Package]bool{}
 	e.objSeq = 0
 	e.epoch = 0
+	e.freezeEpoch = 0
 	e.steps = 0
 	e.seq = map[string]int{}
 	e.draws = nil
